@@ -85,6 +85,11 @@ def unescape(v):
 def gen_case(rng, i, tier):
     kind = rng.choice(['plain', 'plain', 'escape', 'escape', 'layered'])
     depth = rng.choice([1, 2, 3])
+    if kind == 'plain' and i % 400 == 7:
+        # long plain containers (more than 1000 entries / keys)
+        n = rng.choice([1001, 1500, 3000])
+        t = {'long': ['e%d' % j for j in range(n)], 'wide': {'k%04d' % j: j for j in range(n)}, 'deep': [[[[[['x']]]]]]}
+        return {'kind': kind, 'tree': t, 'cli': False}
     if kind == 'plain':
         t = rtree(rng, depth, True)
         if isinstance(t, dict) and rng.random() < 0.5:
